@@ -6,17 +6,19 @@ Open Scope Z_scope.
 
 (* ---------- Part 1: complete behaviour of the two repaired shapes of order ---------- *)
 
-(* kind 1: build, encode, then open/write/flush/close (JsonResource.save) *)
+(* kind 1: build, encode, text to bytes, then open/write/flush/close (JsonResource.save) *)
 Lemma kind1_behaviour j order fault old :
   order_kind order = 1%nat ->
   run_save j order fault old =
-    if hits_build j fault || hits_encode j fault then (Raised, old) else (Done, Some (j_new j)).
+    if hits_build j fault || hits_encode j fault || hits_bytes j fault then (Raised, old)
+    else (Done, Some (j_new j)).
 Proof.
   unfold order_kind.
   repeat (destruct order as [|[] order]; try discriminate).
   intros _. unfold run_save. simpl.
   destruct (hits_build j fault); simpl; [reflexivity|].
   destruct (hits_encode j fault); simpl; [reflexivity|].
+  destruct (hits_bytes j fault); simpl; [reflexivity|].
   destruct (j_own j); reflexivity.
 Qed.
 
@@ -50,7 +52,7 @@ Lemma kind1_failsafe j order fault old c :
   order_kind order = 1%nat -> run_save j order fault old = (Raised, c) -> c = old.
 Proof.
   intros K. rewrite (kind1_behaviour j order fault old K).
-  destruct (hits_build j fault || hits_encode j fault); intros H; inversion H; reflexivity.
+  destruct (hits_build j fault || hits_encode j fault || hits_bytes j fault); intros H; inversion H; reflexivity.
 Qed.
 
 Lemma kind2_failsafe j order fault old c :
